@@ -57,7 +57,11 @@ def provenance_check(prog, out, sl, label, bid, bb, field, op, required, note_on
     nav = {("crate::subscriptions::pulled_message::PulledMessage", "message"), ("crate::topics::topic_message::MessageId", "value"), required}
     foreign = sorted(f for f in s.fields if (f[0].startswith("crate::") and not f[0].startswith("crate::pubsub_proto")) and f not in nav
                      and not f[0].endswith("::PushPayloadMessage") and not f[0].endswith("::PushPayload"))
-    if s.reads(required) and foreign and not note_only:
+    clocks = sorted(c for c in s.calls if c.split("::")[-1] in ("now", "elapsed", "duration_since") and ("Instant" in c or "SystemTime" in c))
+    if clocks and not note_only:
+        out.violation(key, site, "delivered field `%s` depends on a clock read at delivery time (%s): every delivery of the same message must report the same value"
+                      % (field, ", ".join(c.split("::")[-2] + "::" + c.split("::")[-1] for c in clocks)))
+    elif s.reads(required) and foreign and not note_only:
         out.violation(key, site, "delivered field `%s` is not exactly the published %s: it also takes content from %s" % (
             field, req_s, ", ".join("%s.%s" % (short_ty(f[0]), f[1]) for f in foreign)))
     elif s.reads(required):
@@ -301,9 +305,14 @@ def r09_3(prog, out):
     for bid, b in prog.facts.bodies.items():
         bi = prog.info(bid)
         for bb, t in bi.calls(lambda c: c.target == A.ty("Topic") + "::new"):
-            o = prog.receiver_origin(bi, t.args[2])
+            # the id argument: the integer among the arguments (the constructor may take more than (delegate, info, id))
+            ints = [a for a in t.args if (b.operand_ty(a) or "") in ("u32", "u64", "usize", "u16")]
+            if not ints:
+                out.undecided("topic-id-source:%s" % prog.short(bid), bi.loc(bb), "Topic::new takes no integer id")
+                continue
             key = "topic-id-source:%s" % prog.short(bid)
-            if nid in cells_of(prog, bi, o):
+            o = prog.receiver_origin(bi, ints[0])
+            if any(nid in cells_of(prog, bi, prog.receiver_origin(bi, a)) for a in ints):
                 out.holds(key, bi.loc(bb), "Topic::new receives the manager's next_id")
             else:
                 out.violation(key, bi.loc(bb), "the topic's internal id does not come from the manager's counter (%r)" % o)
